@@ -589,6 +589,9 @@ class PureScheduler:                                    # pylint: disable=r0902
         we return the job that has its index in the middle of the entry jobs.
         Also, we need to return an atomic job, not a scheduler/container.
         """
+        # an empty scheduler stands for itself, see _dot_node_id()
+        if not self.jobs:
+            return self
         # scan once
         number_entries = sum(1 for _ in self.entry_jobs())
         if not number_entries:
@@ -611,6 +614,9 @@ class PureScheduler:                                    # pylint: disable=r0902
         Same as ``_middle_entry_job``, for exit nodes;
         accepts same parameters as ``self.exit_jobs()``
         """
+        # an empty scheduler stands for itself, see _dot_node_id()
+        if not self.jobs:
+            return self
         number_exits = sum(1 for _ in self.exit_jobs(**exit_kwds))
         # no need to do this in any case from now on
         exit_kwds['compute_backlinks'] = False
@@ -629,6 +635,18 @@ class PureScheduler:                                    # pylint: disable=r0902
         if not isinstance(candidate, PureScheduler):
             return candidate
         return candidate._middle_exit_job()
+
+    @staticmethod
+    def _dot_node_id(job):
+        """
+        The id of the DOT node that edges to or from ``job`` get attached to:
+        its own id for an atomic job; an empty nested scheduler has no job that
+        could play that role, so an invisible placeholder node is created
+        in its cluster - see _dot_body() - and this returns its id.
+        """
+        if isinstance(job, PureScheduler):
+            return "empty_{}".format(job.repr_id())
+        return job.repr_id()
 
     def repr_entries(self):                             # pylint: disable=c0111
         return "entries={}".format(self._entry_csv())
@@ -1362,6 +1380,11 @@ DOT_%28graph_description_language%29
         result += "{\n"
         result += "compound=true;\n"
         result += "graph [{}];\n".format(dot_style)
+        if not self.jobs and isinstance(self, AbstractJob):
+            # an empty nested scheduler: an invisible placeholder lets its
+            # cluster show up, and gives something to attach edges to
+            result += ('{} [shape="point",style="invis",label=""]\n'
+                       .format(self._dot_node_id(self)))
         for job in self.topological_order():
 
             # regular jobs
@@ -1383,7 +1406,7 @@ DOT_%28graph_description_language%29
                         from_node = req._middle_exit_job()
                         cluster_name = req.dot_cluster_name()
                         result += ("{} -> {} [ltail={}];\n"
-                                   .format(from_node.repr_id(),
+                                   .format(self._dot_node_id(from_node),
                                            job.repr_id(),
                                            cluster_name))
 
@@ -1401,15 +1424,18 @@ DOT_%28graph_description_language%29
                     if not isinstance(req, PureScheduler):
                         result += ("{} -> {} [lhead={}];\n"
                                    .format(req.repr_id(),
-                                           job._middle_entry_job().repr_id(),
+                                           self._dot_node_id(
+                                               job._middle_entry_job()),
                                            cluster_name))
 
                     # upstream is a scheduler as well
                     else:
                         src_cluster_name = req.dot_cluster_name()
                         result += ("{} -> {} [lhead={} ltail={}];\n"
-                                   .format(req._middle_exit_job().repr_id(),
-                                           job._middle_entry_job().repr_id(),
+                                   .format(self._dot_node_id(
+                                               req._middle_exit_job()),
+                                           self._dot_node_id(
+                                               job._middle_entry_job()),
                                            cluster_name,
                                            src_cluster_name))
 
